@@ -9,5 +9,7 @@ CONSTANTS
   Recheck = FALSE
   Post = "none"
   Record = "always"
+  Breaks = FALSE
+  Blind = FALSE
   Export = FALSE
 INVARIANTS NoHazard
